@@ -365,8 +365,13 @@ pub fn make_poly(n: &Uint, d: u128, r: &Uint) -> Poly {
     debug_assert!((r * r) % d == n % d);
     // Lift square root mod D^2
     // Since D*D < N, computations can be done using the same integer width.
+    // In multi-threaded mode, remote blocks may use D > sqrt(N) for small N:
+    // n - h1^2 is still divisible by D but it can be negative.
     let h1 = r;
-    let c = ((n - h1 * h1) / d) % d;
+    let c = {
+        let q = (Int::cast_from(*n) - Int::cast_from(h1 * h1)) / Int::cast_from(d);
+        Uint::cast_from(q.rem_euclid(Int::cast_from(d)))
+    };
     let h2 = (c * inv_mod(&(h1 << 1), &d).unwrap()) % d;
     // (h1 + h2*D)**2 = n mod D^2
     let mut b = h1 + h2 * d;
